@@ -169,3 +169,7 @@ where
         Write::poll_write_vectored(self.project().inner, cx, bufs)
     }
 }
+
+#[cfg(all(test, feature = "verif-hooks"))]
+#[path = "io_verif_replays.rs"]
+mod verif_replays;
